@@ -1,6 +1,7 @@
 import TensorModel.Proofs.Reduce
 import TensorModel.Proofs.Views
 import TensorModel.Proofs.Kernels
+import TensorModel.Proofs.Compact
 /-!
   C08 — reductions fold exactly the elements along the requested axes.
   Property theorems about the model functions of `TensorModel/Ext/Reduce.lean`; helper lemmas live
@@ -34,10 +35,52 @@ theorem prepReduce_refuses_iterable (st : St) (a : Dense) (axis : Int) (h : a.re
   · exact ⟨_, by simp [hax, throwErr_bind]; rfl⟩
   · exact ⟨_, by simp [hax, h, throwErr_map]; rfl⟩
 
+/-- `compactOperand` leaves views, lazily transposed tensors and tensors in their default layout alone -/
+theorem compactOperand_default (st : St) (a : Dense) (h : (a.isMaterializable || a.hasDefaultLayout) = true) :
+    compactOperand st a = .ok (st, a) := by
+  unfold compactOperand
+  have : (!a.isMaterializable && !a.hasDefaultLayout) = false := by
+    cases h1 : a.isMaterializable <;> cases h2 : a.hasDefaultLayout <;> simp_all
+  simp [this]
+
+/-- what `compactOperand` hands on: a tensor of the same shape and element type; nothing that existed is written -/
+theorem compactOperand_ok (st st1 : St) (a a1 : Dense) (h : compactOperand st a = .ok (st1, a1)) :
+    a1.shape = a.shape ∧ a1.dt = a.dt ∧ st.heap.size ≤ st1.heap.size ∧
+      (∀ b k : Nat, b < st.heap.size → (st1.heap[b]?).bind (·[k]?) = (st.heap[b]?).bind (·[k]?)) := by
+  unfold compactOperand at h
+  split at h
+  · obtain ⟨cap, _, cdt, _, _, _, _, hsz, hfr⟩ := compacted_spec st st1 a a1 h
+    refine ⟨by rw [Dense.shape, cap], cdt, by omega, fun b k hb => by rw [hfr b hb]⟩
+  · simp only [Except.ok.injEq, Prod.mk.injEq] at h
+    obtain ⟨rfl, rfl⟩ := h
+    exact ⟨rfl, rfl, Nat.le_refl _, fun _ _ _ => rfl⟩
+
+/-- a view, a lazily transposed or a masked tensor that needs its iterator is refused by every reduction step; a
+    tensor that owns its data in another layout than the default one is not: it is compacted first
+    (`optimizedReduce_compacts`) -/
 theorem optimizedReduce_refuses_iterable (st : St) (op : RedOp) (a : Dense) (axis : Int)
-    (h : a.requiresIterator = true) : ∃ tag, optimizedReduce st op a axis = .error (.err tag) := by
+    (h : a.requiresIterator = true) (hc : (a.isMaterializable || a.hasDefaultLayout) = true) :
+    ∃ tag, optimizedReduce st op a axis = .error (.err tag) := by
   obtain ⟨tag, ht⟩ := prepReduce_refuses_iterable st a axis h
-  exact ⟨tag, by simp [optimizedReduce, ht, bind, Except.bind]⟩
+  exact ⟨tag, by simp [optimizedReduce, compactOperand_default st a hc, ht, bind, Except.bind]⟩
+
+/-- **(after the repair of finding F44)** a reduction step on a tensor that owns its data without holding it in the
+    default layout of its shape (the clone of a non-contiguous view) is the step on its compact copy -/
+theorem optimizedReduce_compacts (st : St) (op : RedOp) (a : Dense) (axis : Int)
+    (hm : a.isMaterializable = false) (hd : a.hasDefaultLayout = false) (hnn : 0 ≤ totalSize a.shape) :
+    optimizedReduce st op a axis = (do
+      let (st1, c) ← a.compacted st
+      optimizedReduce st1 op c axis) := by
+  cases hc : a.compacted st with
+  | error e => simp [optimizedReduce, compactOperand, hm, hd, hc, bind, Except.bind]
+  | ok p =>
+    obtain ⟨st1, c⟩ := p
+    have h2 : compactOperand st1 c = .ok (st1, c) := compactOperand_default st1 c (by
+      rw [compacted_hasDefaultLayout st st1 a c hc hnn]; simp)
+    show optimizedReduce st op a axis = optimizedReduce st1 op c axis
+    unfold optimizedReduce
+    rw [h2]
+    simp [compactOperand, hm, hd, hc]
 
 /-- the generic `Reduce` and every step of `Sum/Max/Min`: a column-major operand is refused ("NYI")
     when the axis is the first or the last one -/
@@ -56,14 +99,30 @@ theorem reduceVals_colmajor_refused (op : RedOp) (a reuse : Dense) (data : List 
 
 /-- `Sum/Max/Min` refuse an element type without a method triple, on both paths -/
 theorem engReduce_unsupported_type (st : St) (op : RedOp) (a : Dense) (along : List Int)
-    (hm : a.isMaterializable = false) (ht : op.types.contains a.dt = false) :
+    (hm : a.isMaterializable = false) (hd : a.hasDefaultLayout = true) (ht : op.types.contains a.dt = false) :
     ∃ tag, (engReduce st op a along).res = .error (.err tag) := by
   have ht' : a.dt ∉ op.types := by simpa using ht
   unfold engReduce
-  simp only [hm, Bool.false_eq_true, if_false, Option.getD_none]
+  simp only [hm, Bool.false_eq_true, if_false, Option.getD_none, compactOperand_default st a (by simp [hd])]
   by_cases hs : allAxesShortcut along a.dims = true
   · exact ⟨_, by simp [hs, ht', throwErr]; rfl⟩
   · exact ⟨_, by simp [hs, ht', throwErr]; rfl⟩
+
+/-- … whatever the layout of the operand: such an element type is never folded -/
+theorem engReduce_unsupported_type_never (st : St) (op : RedOp) (a : Dense) (along : List Int)
+    (hm : a.isMaterializable = false) (ht : op.types.contains a.dt = false) (r : Dense) :
+    (engReduce st op a along).res ≠ .ok r := by
+  unfold engReduce
+  simp only [hm, Bool.false_eq_true, if_false, Option.getD_none]
+  cases hc : compactOperand st a with
+  | error e => simp
+  | ok p =>
+    obtain ⟨st1, a2⟩ := p
+    have hdt : a2.dt = a.dt := (compactOperand_ok st st1 a a2 hc).2.1
+    have ht' : a2.dt ∉ op.types := by rw [hdt]; simpa using ht
+    by_cases hs : allAxesShortcut along a2.dims = true
+    · simp [hs, ht', throwErr]
+    · simp [hs, ht', throwErr]
 
 /-- no axes given = all axes -/
 theorem allAxes_nil (n : Nat) : allAxesShortcut [] n = true := by
@@ -222,31 +281,38 @@ theorem writeVals_ok (st st' : St) (reuse r : Dense) (vals : List Val) (h : writ
 theorem optimizedReduce_ok (st st' : St) (op : RedOp) (a r : Dense) (axis : Int)
     (h : optimizedReduce st op a axis = .ok (st', r)) :
     r.shape = removeAxis a.shape axis ∧ r.strides = calcStrides r.shape ∧ r.dt = a.dt ∧ r.view = false ∧
-      r.win.buf = st.heap.size ∧
+      st.heap.size ≤ r.win.buf ∧
       (∀ b k : Nat, b < st.heap.size → (st'.heap[b]?).bind (·[k]?) = (st.heap[b]?).bind (·[k]?)) := by
   unfold optimizedReduce at h
-  cases hp : prepReduce st a axis with
+  cases hco : compactOperand st a with
+  | error e => rw [hco] at h; cases h
+  | ok p0 =>
+  obtain ⟨st0, a0⟩ := p0
+  rw [hco] at h
+  simp only [ok_bind] at h
+  obtain ⟨c1, c2, c3, c4⟩ := compactOperand_ok st st0 a a0 hco
+  cases hp : prepReduce st0 a0 axis with
   | error e => rw [hp] at h; cases h
   | ok p =>
     obtain ⟨st1, reuse⟩ := p
     rw [hp] at h
     simp only [ok_bind] at h
-    cases hd : a.rawCells st1 with
+    cases hd : a0.rawCells st1 with
     | error e => rw [hd] at h; cases h
     | ok data =>
       rw [hd] at h
       simp only [ok_bind] at h
-      cases hv : reduceVals op a reuse data axis with
+      cases hv : reduceVals op a0 reuse data axis with
       | error e => rw [hv] at h; cases h
       | ok vals =>
         rw [hv] at h
         simp only [ok_bind] at h
-        obtain ⟨h1, h2, h3, h4, _, _, h7, _, _, _, _, h12⟩ := prepReduce_ok st st1 a reuse axis hp
+        obtain ⟨h1, h2, h3, h4, _, _, h7, _, _, _, _, h12⟩ := prepReduce_ok st0 st1 a0 reuse axis hp
         obtain ⟨hr, hfr⟩ := writeVals_ok st1 st' reuse r vals h
         subst hr
-        refine ⟨h1, h2, h3, h4, h7, ?_⟩
+        refine ⟨by rw [h1, c1], h2, by rw [h3, c2], h4, by omega, ?_⟩
         intro b k hb
-        rw [hfr b k (by omega), h12 b k hb]
+        rw [hfr b k (by omega), h12 b k (by omega), c4 b k hb]
 
 /-- with a natural-number axis the removed axis is `eraseIdx` -/
 theorem optimizedReduce_shape (st st' : St) (op : RedOp) (a r : Dense) (k : Nat)
@@ -258,14 +324,78 @@ theorem engReduce_allAxes_scalar (st : St) (op : RedOp) (a r : Dense) (along : L
     (hm : a.isMaterializable = false) (hs : allAxesShortcut along a.dims = true)
     (h : (engReduce st op a along).res = .ok r) : r.shape = [] ∧ r.strides = [] := by
   unfold engReduce at h
-  simp only [hm, Bool.false_eq_true, if_false, Option.getD_none, hs, if_true] at h
-  split at h
-  · cases h
-  · split at h
+  simp only [hm, Bool.false_eq_true, if_false, Option.getD_none] at h
+  cases hc : compactOperand st a with
+  | error e => rw [hc] at h; cases h
+  | ok p =>
+    obtain ⟨st1, a2⟩ := p
+    rw [hc] at h
+    have hdims : a2.dims = a.dims := by
+      have := (compactOperand_ok st st1 a a2 hc).1
+      unfold Dense.dims; unfold Dense.shape at this; rw [this]
+    simp only [hdims, hs, if_true] at h
+    split at h
     · cases h
     · split at h
       · cases h
-      · injection h with h; subst h; exact ⟨rfl, rfl⟩
+      · split at h
+        · cases h
+        · injection h with h; subst h; exact ⟨rfl, rfl⟩
+
+/-- **(after the repair of finding F44) the all-axes shortcut of `Sum/Max/Min` folds exactly the elements** of a
+    tensor that owns its data without holding it in the default layout (the clone of a non-contiguous view keeps the
+    view's window — before the repair `Monotonic<Op>` folded the cells between the elements too): row-major, flagged
+    non-contiguous, unmasked, its pattern inside its window, any rank and strides. The call succeeds and returns a
+    new scalar holding the kernel's fold of the row-major listing of the tensor's elements; nothing that existed is
+    written. -/
+theorem engReduce_allAxes_folds_elements (st : St) (op : RedOp) (a : Dense) (along : List Int)
+    (hm : a.isMaterializable = false) (hd : a.hasDefaultLayout = false)
+    (hs : allAxesShortcut along a.dims = true) (ht : op.types.contains a.dt = true)
+    (hrow : a.ap.o.col = false) (hit : a.requiresIterator = true) (hnm : a.mask = none) (hlen0 : a.win.len ≠ 0)
+    (hne : a.ap.shape ≠ [])
+    (hl : a.ap.strides.length = a.ap.shape.length) (hp : ∀ d ∈ a.ap.shape, 0 < d)
+    (hcap : a.win.len ≤ a.win.cap) (hbuf : a.win.buf < st.heap.size)
+    (hr : ∀ c ∈ allCoords a.ap.shape, 0 ≤ dot c a.ap.strides ∧ dot c a.ap.strides < (a.win.len : Int))
+    (hh : Has st a.win.buf a.win.off a.win.len) :
+    ∃ r, (engReduce st op a along).res = .ok r ∧ r.shape = [] ∧ r.win.off = 0 ∧
+      cell (engReduce st op a along).st r.win.buf 0 = some (rowFold op.lastF op.lastInit
+        ((allCoords a.ap.shape).map (fun x => cellD st a.win.buf (a.win.off + (dot x a.ap.strides).toNat)))) ∧
+      (∀ b k, b < st.heap.size → cell (engReduce st op a along).st b k = cell st b k) := by
+  obtain ⟨st1, c, hc, hcs, hcd, _, hraw, hfr⟩ :=
+    compacted_rawCells_rowMajor st a hrow hit hnm hlen0 hne hl hp hcap hbuf hr hh
+  have hco : compactOperand st a = .ok (st1, c) := by simp [compactOperand, hm, hd, hc]
+  have hdims : c.dims = a.dims := by unfold Dense.dims; unfold Dense.shape at hcs; rw [hcs]
+  have ht' : (!op.types.contains c.dt) = false := by rw [hcd, ht]; rfl
+  have hnonempty : ((allCoords a.ap.shape).map
+      (fun x => cellD st a.win.buf (a.win.off + (dot x a.ap.strides).toNat))).isEmpty = false := by
+    have hlenr := congrArg List.length (C17compat.allCoords_map_rowRank a.ap.shape hp)
+    have hpp := prod_pos _ hp
+    cases hac : allCoords a.ap.shape with
+    | nil => rw [hac] at hlenr; simp [rangeI] at hlenr; omega
+    | cons _ _ => rfl
+  have hsz1 := (compacted_spec st st1 a c hc).2.2.2.2.2.2.2.1
+  unfold engReduce
+  simp only [hm, Bool.false_eq_true, if_false, Option.getD_none, hco, hdims, hs, if_true, ht', hraw, hnonempty,
+    Bool.and_false, Dense.fresh, St.alloc]
+  refine ⟨_, rfl, rfl, rfl, ?_, ?_⟩
+  · simp [cell]
+  · intro b k hb
+    rw [cell_push_lt _ _ _ _ (by omega)]
+    exact hfr b k hb
+
+/-- non-vacuity (the witness of finding F44): the clone of `a[0:6:2]` — three elements, stride 2, a window of five
+    cells, flagged non-contiguous, not a view — meets the hypotheses; `Sum` folds its three elements (before the
+    repair: all five cells of the window) -/
+def f44St : St := { heap := #[#[.src 0 0, .src 0 1, .src 0 2, .src 0 3, .src 0 4]] }
+def f44Clone : Dense := { ap := { shape := [3], strides := [2], fin := true, o := { nonContig := true } },
+                          win := ⟨0, 0, 5, 5⟩, dt := "i" }
+example : f44Clone.isMaterializable = false ∧ f44Clone.hasDefaultLayout = false ∧ f44Clone.requiresIterator = true ∧
+    allAxesShortcut [] f44Clone.dims = true ∧ sumOp.types.contains f44Clone.dt = true ∧
+    (match (engReduce f44St sumOp f44Clone []).res with
+     | .ok r => r.shape == [] &&
+         ((engReduce f44St sumOp f44Clone []).st.heap[r.win.buf]? ==
+           some #[.app2 "add" (.app2 "add" (.app2 "add" .zero (.src 0 0)) (.src 0 2)) (.src 0 4)])
+     | _ => false) = true := by decide
 
 /-! ## 3. The kernels compute S's fold on a contiguous row-major operand (any rank) -/
 
